@@ -557,3 +557,589 @@ func fileLoadExact(c *Ctx, id string) {
 		return ""
 	}, "read ok → exist, nil; ErrNotExist → ¬exist, nil; other error → error")
 }
+
+// observeCallbackExact (C07): the callback that applies one copy's persistence report, evaluated exhaustively over
+// closed × same generation × error class (none, ambiguous-timeout, temporary failure, busy, other) × table lookup ×
+// index in range × report outdated × branch id changed. Specification (from the property): the round's wait group is
+// always signalled, exactly once; a closed mitigation or a stale generation changes nothing; a transient observe
+// error changes nothing and is survived, any other error stops the client; otherwise, if the report differs from what
+// is recorded, both fields are recorded and (vbID, getMinSeqNo(vbID)) is dispatched — in that order — and the branch id
+// used for the next observe is refreshed when the copy reports another one.
+func observeCallbackExact(c *Ctx, id string) {
+	w := c.W
+	obs := w.Method("couchbase", "rollbackMitigation", "observe")
+	c.need(obs != nil && len(obs.AnonFuncs) == 1, id, "rollbackMitigation.observe with one callback closure")
+	cb := obs.AnonFuncs[0]
+	rec := replicaStateType(w)
+	c.need(rec != nil && len(cb.Params) == 2, id, "replica record type / callback signature")
+	gm := w.Method("couchbase", "rollbackMitigation", "getMinSeqNo")
+	io := w.Method("couchbase", rec.Obj().Name(), "IsOutdated")
+	c.need(gm != nil && io != nil, id, "getMinSeqNo / IsOutdated")
+	resP, errP := cb.Params[0].Name(), cb.Params[1].Name()
+	rmClosed := flagSetBy(w, w.Method("couchbase", "rollbackMitigation", "Stop"))
+	if rmClosed == "" {
+		rmClosed = "closed"
+	}
+	noinl := map[string]bool{fname(gm): true, fname(io): true}
+	for _, m := range w.ModFuncs {
+		if m.Signature.Recv() != nil && recvTypeName(m.Signature.Recv().Type()) == rec.Obj().Name() && strings.HasPrefix(m.Name(), "Set") {
+			noinl[fname(m)] = true
+		}
+	}
+	classes := []string{"ErrUnambiguousTimeout", "ErrTemporaryFailure", "ErrBusy", "other"}
+	h := &Harness{Fn: cb, Quiet: quietLog, NoInline: noinl, MaxSteps: 6000,
+		Bools:   []string{"r." + rmClosed, errP + "==nil", "found", "outdated"},
+		Choices: map[string]int{"class": len(classes), "ncopies": 3, "replica": 2},
+		Groups:  []Group{{Atoms: []string{"r.activeGroupID", "groupID"}, EqOnly: true}, {Atoms: []string{"vbUUID", resP + ".VbUUID"}, EqOnly: true}},
+		Args: map[string]func(st *State) AV{
+			"replica": func(st *State) AV { return avPtr{&cell{typ: types.Typ[types.Int], val: avInt{conc: int64(st.C("replica"))}, have: true, sym: "replica"}} },
+		},
+		Valid: func(st *State) bool {
+			if st.B(errP+"==nil") && st.C("class") != len(classes)-1 {
+				return false
+			}
+			if !st.B("found") && st.C("ncopies") != 0 {
+				return false
+			}
+			return true
+		},
+		Oracle: func(st *State, name string, args []AV, res *types.Tuple) ([]AV, bool) {
+			switch {
+			case name == "errors.Is":
+				tgt := avString(args[1])
+				for i, cs := range classes {
+					if strings.HasSuffix(tgt, "."+cs) {
+						return []AV{avBool{st.C("class") == i}}, true
+					}
+				}
+				return []AV{avBool{false}}, true
+			case strings.HasSuffix(name, ".persistedSeqNos.Load"):
+				var cs []*cell
+				for i := 0; i < st.C("ncopies"); i++ {
+					cs = append(cs, &cell{typ: types.NewPointer(rec), sym: fmt.Sprintf("copy%d", i)})
+				}
+				return []AV{avSlice{cells: cs, isNil: len(cs) == 0}, avBool{st.B("found")}}, true
+			case name == fname(io):
+				return []AV{avBool{st.B("outdated")}}, true
+			case name == fname(gm):
+				return []AV{avInt{atom: "min"}}, true
+			}
+			return nil, false
+		}}
+	c.oae(id, "observe-callback", cb.Pos(), h, func(st *State, out *Outcome) string {
+		var done, sets, disp, uuidStores []Effect
+		order := []string{}
+		for _, e := range out.Trace {
+			switch {
+			case strings.HasSuffix(e.Name, "WaitGroup).Done"):
+				done = append(done, e)
+				order = append(order, "done")
+			case noinl[e.Name] && strings.Contains(e.Name, ").Set"):
+				sets = append(sets, e)
+				order = append(order, "set")
+			case strings.HasSuffix(e.Name, ".persistSeqNoDispatcher"):
+				disp = append(disp, e)
+				order = append(order, "dispatch")
+			case strings.HasSuffix(e.Name, ".vbUUIDMap.Store"):
+				uuidStores = append(uuidStores, e)
+			case e.Name == fname(gm):
+				order = append(order, "min")
+			}
+		}
+		if len(done) != 1 || order[0] != "done" {
+			return fmt.Sprintf("the round's wait group is signalled %d times (first effect: %v) — the observe round would hang or panic", len(done), order)
+		}
+		stale := st.B("r."+rmClosed) || !st.Eq("r.activeGroupID", "groupID")
+		transient := !st.B(errP+"==nil") && st.C("class") < 3
+		fatal := !st.B(errP+"==nil") && st.C("class") == 3
+		quiet := len(sets)+len(disp)+len(uuidStores) == 0
+		switch {
+		case stale:
+			if out.Panicked || !quiet {
+				return "a report for a closed mitigation / an old cluster-map generation has an effect"
+			}
+			return ""
+		case transient:
+			if out.Panicked {
+				return "a transient observe error (" + classes[st.C("class")] + ") stops the client"
+			}
+			if !quiet {
+				return "a failed observe changes the table"
+			}
+			return ""
+		case fatal:
+			if !out.Panicked {
+				return "an unexpected observe error is swallowed"
+			}
+			return ""
+		}
+		if out.Panicked {
+			return "panics on a successful report"
+		}
+		inRange := st.C("ncopies") > st.C("replica")
+		if !inRange {
+			if !quiet {
+				return "a report for a copy index outside the table has an effect"
+			}
+			return ""
+		}
+		if st.B("outdated") {
+			if len(sets) != 2 || len(disp) != 1 {
+				return fmt.Sprintf("an outdated record: %d field updates and %d dispatches (expected 2 and 1)", len(sets), len(disp))
+			}
+			// both updates on the reported copy, before the minimum is taken, which is before the dispatch
+			want := fmt.Sprintf("copy%d", st.C("replica"))
+			for _, e := range sets {
+				if len(e.Args) < 1 || !strings.Contains(avString(e.Args[0]), want) {
+					return "the report is recorded on another copy: " + e.String()
+				}
+			}
+			seq := strings.Join(order, " ")
+			if !strings.Contains(seq, "set set min dispatch") {
+				return "order of effects is " + seq + ", expected: both updates, then the minimum, then the dispatch"
+			}
+		} else if len(sets)+len(disp) != 0 {
+			return "an unchanged report is recorded or dispatched again"
+		}
+		wantUUID := 0
+		if !st.Eq("vbUUID", resP+".VbUUID") {
+			wantUUID = 1
+		}
+		if len(uuidStores) != wantUUID {
+			return fmt.Sprintf("branch id for the next observe refreshed %d times, expected %d", len(uuidStores), wantUUID)
+		}
+		return ""
+	}, "Done once and first; stale/closed → nothing; transient error → nothing, survived; other error → panic; else outdated ⇒ record both fields, then min, then dispatch; branch id refreshed ⇔ it changed")
+}
+
+// mitigationLifecycle (C07/C13): the plumbing around the observe callback, as path languages and must-happen clauses.
+//   Start:            waitFirstConfig ; (err ⇒ panic) ; reconfigure ; go { loop: configWatch }
+//   Stop:             closed←true unconditionally (the callback and the observe loop test it)
+//   startObserve:     fresh vbUUID map ; loadVbUUIDMap ; ticker ; loop
+//   loadVbUUIDMap:    one loader per vBucket of the table ; Wait ; (err ⇒ panic)
+//   loadVbUUID:       failover log (error returned) ; vbUUIDMap[vbID] ← entry 0
+//   SetAbsent/IsAbsent: the flag is stored / returned
+func mitigationLifecycle(c *Ctx, id string) {
+	w := c.W
+	m := func(name string) *ssa.Function { return w.Method("couchbase", "rollbackMitigation", name) }
+	start, stop, so, lm, lv, wfc, rc, cw := m("Start"), m("Stop"), m("startObserve"), m("loadVbUUIDMap"), m("loadVbUUID"), m("waitFirstConfig"), m("reconfigure"), m("configWatch")
+	c.need(start != nil && stop != nil && so != nil && lm != nil && lv != nil && wfc != nil && rc != nil && cw != nil, id, "rollbackMitigation.Start/Stop/startObserve/loadVbUUIDMap/loadVbUUID/waitFirstConfig/reconfigure/configWatch")
+	lang := func(fn *ssa.Function, key string, want []string, classify eventClassifier, text string) {
+		c.see(fn)
+		seqs, complete := pathEvents(fn, classify, 0)
+		ok := complete && len(seqs) > 0
+		wantSet := map[string]bool{}
+		for _, x := range want {
+			wantSet[x] = true
+		}
+		for _, s := range seqs {
+			if !wantSet[s] {
+				ok = false
+			}
+		}
+		for _, x := range want {
+			found := false
+			for _, s := range seqs {
+				if s == x {
+					found = true
+				}
+			}
+			if !found {
+				ok = false
+			}
+		}
+		c.Check(ok, id, key, fn.Pos(), fmt.Sprintf("%s %q", text, seqs), fmt.Sprintf("%s — found %q, expected exactly %q", text, seqs, want))
+	}
+	calls := func(table map[*ssa.Function]string) eventClassifier {
+		return func(in ssa.Instruction) (string, *ssa.Function) {
+			if g, ok := in.(*ssa.Go); ok {
+				if f := closureOf(g.Common().Value); f != nil {
+					// what the goroutine's loop does
+					cyc := cycleBlocks(f)
+					ev := "go{}"
+					allInstrs(f, func(x ssa.Instruction) {
+						if cc := callOf(x); cc != nil && cyc[x.Block()] {
+							if n, ok := table[cc.StaticCallee()]; ok {
+								ev = "go{loop:" + n + "}"
+							}
+						}
+					})
+					return ev, nil
+				}
+				if n, ok := table[g.Common().StaticCallee()]; ok {
+					return "go:" + n, nil
+				}
+			}
+			if cc := callOf(in); cc != nil {
+				if n, ok := table[cc.StaticCallee()]; ok {
+					return n, nil
+				}
+			}
+			return "", nil
+		}
+	}
+	lang(start, "mitigation:start", []string{"waitFirstConfig !panic", "waitFirstConfig reconfigure go{loop:configWatch}"},
+		calls(map[*ssa.Function]string{wfc: "waitFirstConfig", rc: "reconfigure", cw: "configWatch"}), "Start = first config (or die), reconfigure, watch loop")
+	// the panic of Start is under the error of waitFirstConfig
+	allInstrs(start, func(in ssa.Instruction) {
+		if _, isP := in.(*ssa.Panic); isP {
+			okG := errGuard(in.Block(), false, func(v ssa.Value) bool {
+				call, ok := v.(*ssa.Call)
+				return ok && call.Common().StaticCallee() == wfc
+			})
+			c.Check(okG, id, "mitigation:start-panic", in.Pos(), "Start panics ⇔ the first configuration could not be obtained", "Start's panic is not guarded by the error of waitFirstConfig")
+		}
+	})
+	// Stop raises the closed flag unconditionally
+	closedName := flagSetBy(w, stop)
+	okStop := false
+	allInstrs(stop, func(in ssa.Instruction) {
+		if f, _, val := flagWrite(in); f != nil && f.Name() == closedName && w.Origin(val) == "const(true)" && len(guardsOf(in.Block())) == 0 {
+			okStop = true
+		}
+	})
+	// …and that is the flag the callback and the observe loop read
+	readBy := 0
+	for _, f := range []*ssa.Function{so, m("observe")} {
+		if f == nil {
+			continue
+		}
+		for _, g := range withAnon(f) {
+			seen := false
+			allInstrs(g, func(in ssa.Instruction) {
+				if v, ok := in.(ssa.Value); ok {
+					if fl, _ := flagRead(v); fl != nil && fl.Name() == closedName {
+						seen = true
+					}
+				}
+			})
+			if seen {
+				readBy++
+			}
+		}
+	}
+	c.Check(okStop && closedName != "" && readBy >= 2, id, "mitigation:stop-flag", stop.Pos(), "Stop raises the closed flag unconditionally; the observe loop and the callback read it", fmt.Sprintf("Stop does not unconditionally raise the flag (%q) that the observe loop and callback test (raised: %v, readers: %d): reports keep changing thresholds after Close", closedName, okStop, readBy))
+	// startObserve prologue: a fresh branch-id map, filled, and a ticker, all before the first round
+	vmap := w.Field("couchbase", "rollbackMitigation", "vbUUIDMap")
+	tick := w.Field("couchbase", "rollbackMitigation", "observeTimer")
+	c.see(so)
+	var sel ssa.Instruction
+	allInstrs(so, func(in ssa.Instruction) {
+		if _, ok := in.(*ssa.Select); ok && sel == nil {
+			sel = in
+		}
+	})
+	pro := map[string]bool{}
+	if sel != nil {
+		allInstrs(so, func(in ssa.Instruction) {
+			if st, ok := in.(*ssa.Store); ok && dominatesInstr(in, sel) && len(guardsOf(in.Block())) == 0 {
+				switch fieldOfAddr(st.Addr) {
+				case vmap:
+					if freshMapIn(st.Val, so) {
+						pro["map"] = true
+					}
+				case tick:
+					if call, isCall := unwrap(st.Val).(*ssa.Call); isCall && calleeName(call.Common()) == "time.NewTicker" {
+						pro["ticker"] = true
+					}
+				}
+			}
+			if cc := callOf(in); cc != nil && cc.StaticCallee() == lm && dominatesInstr(in, sel) && len(guardsOf(in.Block())) == 0 {
+				pro["load"] = true
+			}
+		})
+	}
+	c.Check(sel != nil && pro["map"] && pro["load"] && pro["ticker"], id, "mitigation:observe-prologue", so.Pos(), "before the first round: fresh branch-id map, loadVbUUIDMap, ticker", fmt.Sprintf("the observe loop starts without its prologue (fresh map: %v, branch ids loaded: %v, ticker: %v): copies are observed under branch id 0 or never", pro["map"], pro["load"], pro["ticker"]))
+	// loadVbUUIDMap
+	lang(lm, "mitigation:load-map", []string{"range wait !panic", "range wait"}, func(in ssa.Instruction) (string, *ssa.Function) {
+		cc := callOf(in)
+		if cc == nil {
+			return "", nil
+		}
+		if mm, _ := csmapMethod(cc); mm == "Range" {
+			// the callback spawns one loader per entry
+			ok := false
+			if f := closureOf(cc.Args[1]); f != nil {
+				for _, g := range withAnon(f) {
+					allInstrs(g, func(x ssa.Instruction) {
+						if c2 := callOf(x); c2 != nil && c2.StaticCallee() == lv {
+							ok = true
+						}
+					})
+				}
+				n := 0
+				allInstrs(f, func(x ssa.Instruction) {
+					if c2 := callOf(x); c2 != nil && strings.HasSuffix(calleeName(c2), "errgroup.Group).Go") {
+						n++
+					}
+				})
+				ok = ok && n == 1
+			}
+			if ok {
+				return "range", nil
+			}
+			return "range(no-loader)", nil
+		}
+		if strings.HasSuffix(calleeName(cc), "errgroup.Group).Wait") {
+			return "wait", nil
+		}
+		return "", nil
+	}, "loadVbUUIDMap = one loader per vBucket, Wait, die on error")
+	allInstrs(lm, func(in ssa.Instruction) {
+		if _, isP := in.(*ssa.Panic); isP {
+			okG := errGuard(in.Block(), false, func(v ssa.Value) bool {
+				call, ok := v.(*ssa.Call)
+				return ok && strings.HasSuffix(calleeName(call.Common()), "errgroup.Group).Wait")
+			})
+			c.Check(okG, id, "mitigation:load-map-panic", in.Pos(), "loadVbUUIDMap panics ⇔ a loader failed", "the panic of loadVbUUIDMap is not guarded by the error of Wait")
+		}
+	})
+	// loadVbUUID
+	c.see(lv)
+	var fo *ssa.Call
+	allInstrs(lv, func(in ssa.Instruction) {
+		if call, ok := in.(*ssa.Call); ok && isInvokeOf(call.Common(), "Client", "GetFailOverLogs") {
+			fo = call
+		}
+	})
+	okLV := false
+	if fo != nil {
+		ers := errResults(fo)
+		retErr := len(ers) > 0 && reported(errorSinks(ers[0]))
+		stored := false
+		allInstrs(lv, func(in ssa.Instruction) {
+			if cc := callOf(in); cc != nil {
+				if mm, recv := csmapMethod(cc); mm == "Store" && recv != nil && loadedField(unwrap(recv)) == vmap {
+					k, v := w.Origin(cc.Args[1]), w.Origin(cc.Args[2])
+					if k == "param("+lv.Params[1].Name()+")" && strings.HasSuffix(v, "[const(0)].VbUUID") && errGuard(in.Block(), true, func(x ssa.Value) bool { return isExtractOf(x, fo) }) {
+						stored = true
+					}
+				}
+			}
+		})
+		okLV = retErr && stored
+	}
+	c.Check(okLV, id, "mitigation:load-vbuuid", lv.Pos(), "loadVbUUID returns the failover-log error, else records entry 0's branch id under its vBucket", "loadVbUUID does not (return the failover-log error and otherwise) record failOverLogs[0].VbUUID under its own vBucket id")
+	// the absent flag is a flag
+	if rec := replicaStateType(w); rec != nil {
+		sa, ia := w.Method("couchbase", rec.Obj().Name(), "SetAbsent"), w.Method("couchbase", rec.Obj().Name(), "IsAbsent")
+		okA := sa != nil && ia != nil
+		if okA {
+			name := flagSetBy(w, sa)
+			ret := ""
+			allInstrs(ia, func(in ssa.Instruction) {
+				if r, ok := in.(*ssa.Return); ok && len(r.Results) == 1 {
+					ret = w.Origin(r.Results[0])
+				}
+			})
+			okA = name != "" && ret == "recv."+name
+		}
+		c.Check(okA, id, "mitigation:absent-flag", 0, "SetAbsent raises the flag IsAbsent returns", "SetAbsent does not raise the flag that IsAbsent returns: an unassigned copy is waited for for ever")
+	}
+	// the first configuration: Wait's error is returned
+	c.see(wfc)
+	okW := false
+	allInstrs(wfc, func(in ssa.Instruction) {
+		if call, ok := in.(*ssa.Call); ok && call.Common().IsInvoke() && call.Common().Method.Name() == "Wait" {
+			if reported(errorSinks(call)) {
+				okW = true
+			}
+		}
+	})
+	c.Check(okW, id, "mitigation:first-config-wait", wfc.Pos(), "the waiter's error (dispatch failure / timeout) is returned", "waitFirstConfig drops the error of AsyncOp.Wait: a configuration that never arrived looks like one that did")
+}
+
+// resetCounts (C07): reset, evaluated for 0..2 replicas × 0..2 vBuckets: every vBucket gets replicas+1 records and the
+// first-round counter is re-armed with vBuckets × (replicas+1) — the number of Done signals one observe round produces.
+func resetCounts(c *Ctx, id string) {
+	w := c.W
+	fn := w.Method("couchbase", "rollbackMitigation", "reset")
+	c.need(fn != nil, id, "rollbackMitigation.reset")
+	recv := fn.Params[0].Name()
+	h := &Harness{Fn: fn, Choices: map[string]int{"replicas": 3, "vbs": 3}, Quiet: quietLog, MaxSteps: 8000,
+		Input: func(st *State, sym string, t types.Type) AV {
+			if sym == recv+".vbIds" {
+				var cs []*cell
+				for i := 0; i < st.C("vbs"); i++ {
+					cs = append(cs, &cell{typ: types.Typ[types.Uint16], val: avInt{conc: int64(100 + i)}, have: true, sym: fmt.Sprintf("vb%d", i)})
+				}
+				return avSlice{cells: cs}
+			}
+			return nil
+		},
+		Oracle: func(st *State, name string, args []AV, res *types.Tuple) ([]AV, bool) {
+			if strings.HasSuffix(name, ".NumReplicas") {
+				return []AV{avInt{conc: int64(st.C("replicas"))}, avIface{isNil: true}}, true
+			}
+			return nil, false
+		}}
+	c.oae(id, "reset-counts", fn.Pos(), h, func(st *State, out *Outcome) string {
+		if out.Panicked {
+			return "panics"
+		}
+		want := st.C("replicas") + 1
+		nStore := 0
+		for _, e := range out.Trace {
+			if strings.HasSuffix(e.Name, ".Store") && len(e.Args) == 3 {
+				if sl, ok := e.Args[2].(avSlice); ok {
+					nStore++
+					if len(sl.cells) != want {
+						return fmt.Sprintf("a vBucket gets %d records for %d replicas (expected %d)", len(sl.cells), st.C("replicas"), want)
+					}
+				}
+			}
+		}
+		if nStore != st.C("vbs") {
+			return fmt.Sprintf("%d of %d vBuckets get a record array", nStore, st.C("vbs"))
+		}
+		fin := out.Final(recv + ".observeCount")
+		if fin == nil {
+			fin = out.Final(recv + ".observeCount->") // the counter is held through a pointer
+		}
+		if v, ok := fin.(avInt); ok {
+			if v.atom != "" || int(v.conc) != st.C("vbs")*want {
+				return fmt.Sprintf("the round counter is armed with %s, expected %d vBuckets × %d copies", avString(v), st.C("vbs"), want)
+			}
+			return ""
+		}
+		var ws []string
+		for k, cl := range out.cells {
+			if cl.written {
+				ws = append(ws, k+"="+avString(cl.val))
+			}
+		}
+		sort.Strings(ws)
+		return "the round counter is not re-armed with a known value; written cells: " + strings.Join(ws, ", ")
+	}, "every vBucket gets replicas+1 records; the round counter is vBuckets × (replicas+1)")
+}
+
+// cbLoadReader (C02/C15): the per-vBucket checkpoint reader of the Couchbase backend, exhaustively over what the
+// read can yield: a parsable document → that document is installed and "a checkpoint exists" is raised; an unparsable
+// one or "key not found" → an empty (all-zero) document is installed, existence untouched; any other error → panic,
+// nothing installed. In every surviving case the reader signals Done exactly once.
+func cbLoadReader(c *Ctx, id string) {
+	w := c.W
+	ld := w.Method("couchbase", "cbMetadata", "Load")
+	c.need(ld != nil && len(ld.AnonFuncs) == 1, id, "cbMetadata.Load with one reader closure")
+	fn := ld.AnonFuncs[0]
+	gx := w.Func("couchbase", "GetXattrs")
+	ne := w.Func("models", "NewEmptyCheckpointDocument")
+	kve := w.Pkgs["couchbase"]
+	c.need(gx != nil && ne != nil && kve != nil, id, "couchbase.GetXattrs / models.NewEmptyCheckpointDocument")
+	outcomes := []string{"document", "unparsable", "key-not-found", "kv-error", "other-error"}
+	h := &Harness{Fn: fn, Choices: map[string]int{"read": len(outcomes)}, Quiet: quietLog, MaxSteps: 6000,
+		NoInline: map[string]bool{fname(gx): true, "couchbase.getCheckpointID": true},
+		Oracle: func(st *State, name string, args []AV, res *types.Tuple) ([]AV, bool) {
+			switch {
+			case name == fname(gx):
+				switch st.C("read") {
+				case 0, 1:
+					return []AV{avSlice{sym: "xattr"}, avIface{isNil: true}}, true
+				case 2:
+					return []AV{avSlice{isNil: true}, avIface{sym: "kv:1"}}, true
+				case 3:
+					return []AV{avSlice{isNil: true}, avIface{sym: "kv:134"}}, true
+				default:
+					return []AV{avSlice{isNil: true}, avIface{sym: "plain"}}, true
+				}
+			case strings.HasSuffix(name, "sonic.Unmarshal"):
+				if st.C("read") == 1 {
+					return []AV{avIface{sym: "syntax"}}, true
+				}
+				tgt := args[1]
+				if i, ok := tgt.(avIface); ok {
+					tgt = i.val
+				}
+				if p, ok := tgt.(avPtr); ok && p.c != nil {
+					if pt, ok := p.c.typ.(*types.Pointer); ok {
+						p.c.val, p.c.have, p.c.written = avPtr{&cell{typ: pt.Elem(), sym: "parsedDoc"}}, true, true
+					}
+				}
+				return []AV{avIface{isNil: true}}, true
+			case name == "errors.As":
+				e, _ := args[0].(avIface)
+				if strings.HasPrefix(e.sym, "kv:") {
+					if p, ok := args[1].(avIface); ok {
+						if pp, ok := p.val.(avPtr); ok && pp.c != nil {
+							if pt, ok := pp.c.typ.(*types.Pointer); ok {
+								tc := &cell{typ: pt.Elem(), sym: "kvErr"}
+								// StatusCode
+								if stt, ok := pt.Elem().Underlying().(*types.Struct); ok {
+									tc.fields = make([]*cell, stt.NumFields())
+									for i := 0; i < stt.NumFields(); i++ {
+										if stt.Field(i).Name() == "StatusCode" {
+											code := int64(1)
+											if e.sym != "kv:1" {
+												code = 134
+											}
+											tc.fields[i] = &cell{typ: stt.Field(i).Type(), val: avInt{conc: code}, have: true}
+										}
+									}
+								}
+								pp.c.val, pp.c.have, pp.c.written = avPtr{tc}, true, true
+							}
+						}
+					}
+					return []AV{avBool{true}}, true
+				}
+				return []AV{avBool{false}}, true
+			case name == "couchbase.getCheckpointID":
+				return []AV{avStr{sym: "docID"}}, true
+			}
+			return nil, false
+		}}
+	c.oae(id, "cb-load-reader", fn.Pos(), h, func(st *State, out *Outcome) string {
+		var stores, dones, empties []Effect
+		for _, e := range out.Trace {
+			switch {
+			case strings.HasSuffix(e.Name, "state.Store") || (strings.HasSuffix(e.Name, ".Store") && len(e.Args) == 3):
+				stores = append(stores, e)
+			case strings.HasSuffix(e.Name, "WaitGroup).Done"):
+				dones = append(dones, e)
+			case e.Name == fname(ne):
+				empties = append(empties, e)
+			}
+		}
+		exists := false
+		if b, ok := out.Final("exist").(avBool); ok && b.b {
+			exists = true
+		}
+		r := st.C("read")
+		if r >= 3 {
+			if !out.Panicked {
+				return "an unreadable checkpoint (" + outcomes[r] + ") does not stop the start-up"
+			}
+			if len(stores) != 0 {
+				return "something is installed for an unreadable checkpoint"
+			}
+			return ""
+		}
+		if out.Panicked {
+			return "panics on " + outcomes[r]
+		}
+		if len(stores) != 1 || len(dones) != 1 {
+			return fmt.Sprintf("%s: %d documents installed, Done signalled %d times", outcomes[r], len(stores), len(dones))
+		}
+		doc := avString(stores[0].Args[2])
+		if k := avString(stores[0].Args[1]); !strings.Contains(k, fn.Params[0].Name()) {
+			return "installed under " + k + ", not under the reader's own vBucket id"
+		}
+		switch r {
+		case 0:
+			if !strings.Contains(doc, "parsedDoc") || len(empties) != 0 {
+				return "a readable checkpoint is not what gets installed: " + doc
+			}
+			if !exists {
+				return "a readable checkpoint does not raise 'a checkpoint exists'"
+			}
+		default:
+			if !strings.Contains(doc, "NewEmptyCheckpointDocument") {
+				return outcomes[r] + ": installed " + doc + " instead of an empty document"
+			}
+			if exists {
+				return outcomes[r] + " raises 'a checkpoint exists'"
+			}
+		}
+		return ""
+	}, "document → installed, exists; unparsable / key-not-found → empty document, existence untouched; other error → panic; Done once")
+}
